@@ -107,6 +107,32 @@ def gen_long_chain_case(rnd):
     return f, dict(dims=[(dm, jg.jcol("s0"))], mets=mets, filters=[])
 
 
+def fill_family(c):
+    """simple measures that declare fill_nulls_with, of two models, over groups in which one of them has no rows (an extension table with unmatched rows on both
+    sides): whatever a measure shows for such a group next to its companion is what it shows for it alone"""
+    import random
+    rng = random.Random(c.seed * 31 + 6)          # a stream of its own
+    n = 0
+    for _ in range(8 if c.tier == "quick" else 80):
+        f, q = gen_extension_case(rng)
+        q["mets"] = [(m, rng.choice(["sum", "max", "min", "avg"]), e, fl) for (m, a, e, fl) in q["mets"]]
+        dbm, mbm, drefs, mrefs = c02.field_names(q)
+        try:
+            for m, lst in mbm.items():
+                for (mn, a, e, fl) in lst:
+                    jg.METRIC_KW[(m, mn)] = {"fill_nulls_with": rng.choice([0, 0, -1, 7])}
+            ok, detail = joint_vs_alone(f, q)
+        except Exception as e:
+            ok, detail = False, "error: %s" % str(e)[:200]
+        finally:
+            fills = {"%s.%s" % k: v for k, v in jg.METRIC_KW.items()}
+            jg.METRIC_KW.clear()
+        n += 1
+        if not ok:
+            c.violation("a measure with fill_nulls_with shows another value next to a companion of another model than alone", {"kind": "fill", "forest": f, "query": q, "fills": fills, "detail": str(detail)[:900]})
+    return n
+
+
 def run_impl(f, q, metric_idx=None, extra_filters=(), **kw):
     """joint query (metric_idx None) or the query with only metric number metric_idx; returns {colname: ...} rows as dicts"""
     dbm, mbm, drefs, mrefs = c02.field_names(q)
@@ -348,7 +374,8 @@ def run(c):
         c.obligation("correspondence: Model/MultiFact == joint compile()+DuckDB on the %d multi-fact cases" % stats["multifact"], not fid_bad, "correspondence", json.dumps(fid_bad[:1], default=str)[:1800])
     c.obligation("oracle: joint result == full outer join of the implementation's single-metric results (%d cases); ORDER BY/LIMIT/OFFSET and metric-value filters on a joint query "
                  "return the corresponding part of it (%d sliced / filtered queries)" % (stats["compared"], stats["slices"]), not c.violations, "correspondence")
-    c.coverage.update({"evaluations": len(cases), "distinct_nontrivial": nontrivial,
+    stats["fill_cases"] = fill_family(c)
+    c.coverage.update({"evaluations": len(cases) + stats["fill_cases"], "distinct_nontrivial": nontrivial,
                        "rule": "forests of 2-4 models x queries with metrics of >= 2 models, 0-2 dimensions on any model, filters on metric and non-metric models in 40% of the cases; "
                                "non-trivial = joint result agrees with the single-metric results on more than one group", "traces_validated_against_impl": stats["compared"], "distribution": stats, "exhaustive": False})
 
